@@ -43,6 +43,12 @@ CHECKS = {
                    "subsidy intervals 1-150), timestamps steered to the clamps / min-difficulty / BIP94 / MTP edges, headers and blocks delivered under an advancing, skewed clock"),
              assumptions=_CHAINSIM_ASSUME + ["decides the header-history x parameter-set x clock facet of C09; the clauses quantified over every isolated 32-bit compact value / 256-bit target are reached only for values occurring in generated histories and mutated headers"],
              quick=dict(runs=200, budget=60), thorough=dict(budget=900), det_runs=30),
+ "C14": dict(engine="chainsim", race=False, level="exploration", cpus=2,
+             rule=(_CHAINSIM_RULE + "; votes profile: six seeded BIP9 deployment definitions per run (window 3-10, threshold 1..window, start/timeout by median time incl. past starts, speedy mode with custom threshold and/or "
+                   "minimum activation height, always-active height), block versions voting each bit with probability threshold/window (windows end at threshold-1 and threshold), wrong top bits, forks with different vote histories; "
+                   "state queried at the tip after deliveries and restarts and, through a read-only hook, at arbitrary blocks of any branch in seeded order"),
+             assumptions=_CHAINSIM_ASSUME + ["only well-formed definitions (start < timeout) are generated; rule gating is observed through block verdicts of CSV/segwit-dependent mutants on both sides of the activation"],
+             quick=dict(runs=120, budget=60), thorough=dict(budget=900), det_runs=30),
  "C17": dict(engine="chainsim", race=False, level="exploration", cpus=2,
              rule=(_CHAINSIM_RULE + "; headers profile: interleaved header and block deliveries of the same tree (headers only, headers then blocks, blocks only, orphan headers, headers of invalid blocks), "
                    "with batches of index queries (locators, locate blocks/headers with empty / genuine / side-chain / unknown locators and stop hashes, height ranges, interval hashes, best-header views) "
